@@ -12,7 +12,7 @@
     run (vm_compute) on every value the test binary marshals: [encode] must give the very document the
     real encoder wrote and [decode] the very value the real decoder built (Corr/Check_C02.v). *)
 From Coq Require Import List String ZArith Bool.
-From GM Require Import Base.Result Facts.GoFacts Facts.Ana Model.Enums Model.Fields Model.Classify Model.SqlTypes Sem.GoJson Sem.GoVal Proofs.C02 Proofs.C02rt.
+From GM Require Import Base.Result Facts.GoFacts Facts.Ana Model.Enums Model.Fields Model.Classify Model.SqlTypes Sem.GoJson Sem.GoVal Proofs.C02 Proofs.C02rt Proofs.C02ty.
 Import ListNotations.
 Local Open Scope string_scope.
 
@@ -63,9 +63,21 @@ Theorem C02_round_trip_example :
 Proof. exact ex_round_trip. Qed.
 
 
+(** the same on typed values: [has_shape] decides "v is a value of the shape whose union-typed components hold member
+    values" ([encode] succeeds exactly on those: it is evaluated on every value of every run, Corr/Check_C02.v) *)
+Theorem C02_typed_values_round_trip : forall env, env_wf env = true -> forall f s v, has_shape env f s v = true ->
+  exists j v', encode env f s v = Some j /\ decode env f s j = Some v' /\ canon v' = canon v.
+Proof. exact typed_round_trip. Qed.
+
+Theorem C02_typed_example : has_shape ex_env 6 (ShRef "p.S") ex_value = true.
+Proof. exact ex_typed. Qed.
+
+
 Print Assumptions C02_union_wire_format.
 Print Assumptions C02_struct_wire_format.
 Print Assumptions C02_round_trip.
 Print Assumptions C02_encoded_documents_conform.
 Print Assumptions C02_union_value_on_the_wire.
 Print Assumptions C02_round_trip_example.
+Print Assumptions C02_typed_values_round_trip.
+Print Assumptions C02_typed_example.
